@@ -8,14 +8,18 @@ from oracle.langs import LANGS
 
 
 def worker(ck: Check, code):
+    code, dom = code if isinstance(code, tuple) else (code, None)
     L = LANGS[code]
     quick = ck.tier == 'quick'
     nd = 6 if quick else 12
     digs = Digits(12)
     f = L.flags()
-    assm = digs.constraints(nd) + list(L.side_constraints(digs, f))
+    if dom is None:
+        dom = 'low6' if quick else 'full12'
+    assm = digs.domain(dom) + list(L.side_constraints(digs, f))
     slots = L.cardinal_slots(digs, f)
-    ck.bounds['%s_max_digits' % code] = nd
+    ck.bounds['%s_domain_%s' % (code, dom)] = digs.domain.__doc__.split(dom)[1].split('\n')[0].strip(" ':") if dom in digs.domain.__doc__ else dom
+    _code_label = '%s/%s' % (code, dom)
     nat_words = lambda m: concrete_phrase(slots, m)
 
     # ---------------------------------------------------------------- validator
@@ -64,22 +68,25 @@ def worker(ck: Check, code):
         if cex.get('culprit') is None:
             return None
         return block_word([slots], cex['culprit'])
-    ck.prove_none('%s:validator' % code, assm, bad, on_cex_v, block_v)
-    ck.cover('%s:validator:ok' % code, assm + [z3.Or(*oks)] if oks else [False],
+    ck.prove_none('%s:validator' % _code_label, assm, bad, on_cex_v, block_v)
+    ck.cover('%s:validator:ok' % _code_label, assm + [z3.Or(*oks)] if oks else [False],
              lambda m: {'lang': code, 'n': digs.value_of(m), 'text': ' '.join(nat_words(m))})
 
     # ---------------------------------------------------------------- scanner: bare phrase, and in sentence contexts
     # the scanner on French is an order of magnitude more expensive (word-count variants x regional flags)
-    nd_s = min(nd, {'fr': 3}.get(code, nd)) if quick else min(nd, {'fr': 6}.get(code, nd))
-    scanner_part(ck, code, L, digs, f, slots, digs.constraints(nd_s) + list(L.side_constraints(digs, f)), nd_s,
+    sdom = dom
+    if code == 'fr' and dom in ('low6', 'full12'):
+        sdom = 'low3' if quick else 'low6'
+    scanner_part(ck, code, L, digs, f, slots, digs.domain(sdom) + list(L.side_constraints(digs, f)), sdom,
                  with_context=False)
-    ck.bounds['%s_max_digits_scanner' % code] = nd_s
-    nd_ctx = min(nd, 2 if quick else 3)
-    scanner_part(ck, code, L, digs, f, slots, digs.constraints(nd_ctx) + list(L.side_constraints(digs, f)), nd_ctx,
-                 with_context=True)
-    ck.bounds['%s_max_digits_in_context' % code] = nd_ctx
+    ck.bounds['%s_scanner_domain' % code] = sdom
+    if dom in ('low6', 'full12'):
+        cdom = 'low2' if quick else 'low3'
+        scanner_part(ck, code, L, digs, f, slots, digs.domain(cdom) + list(L.side_constraints(digs, f)), cdom,
+                     with_context=True)
+        ck.bounds['%s_context_domain' % code] = cdom
     res2 = []
-    ck.per_lang[code] = {'validator_paths': len(res), 'max_digits': nd,
+    ck.per_lang[_code_label] = {'validator_paths': len(res),
                          'variant_flags': sorted(f)}
     for o in L.OUTSIDE:
         s = '%s: %s' % (code, o)
@@ -161,8 +168,8 @@ def scanner_part(ck, code, L, digs, f, slots, assm, nd, with_context):
         if cex.get('culprit') is None:
             return None
         return block_word([slots], cex['culprit'])
-    ck.prove_none('%s:scanner%s' % (code, ':ctx' if with_context else ''), assm_s, bad2, on_cex_s, block_s)
-    ck.cover('%s:scanner%s:ok' % (code, ':ctx' if with_context else ''), assm_s + [z3.Or(*ok2)] if ok2 else [False],
+    ck.prove_none('%s/%s:scanner%s' % (code, nd, ':ctx' if with_context else ''), assm_s, bad2, on_cex_s, block_s)
+    ck.cover('%s/%s:scanner%s:ok' % (code, nd, ':ctx' if with_context else ''), assm_s + [z3.Or(*ok2)] if ok2 else [False],
              lambda m: {'lang': code, 'n': digs.value_of(m), 'tokens': [t.text for t in concrete_tokens(tslots, m)]})
     return res2
 
@@ -180,8 +187,13 @@ def run(ck: Check):
     only = __import__('os').environ.get('VERIF_LANGS')
     if only:
         langs = [c for c in langs if c in only.split(',')]
-    run_parallel(ck, worker, langs)
-    ck.outside.append('integers >= 10^%d' % (6 if ck.tier == 'quick' else 12))
+    if ck.tier == 'quick':
+        jobs = [(c, d) for c in langs for d in ('low6', 'sparse')]
+    else:
+        jobs = [(c, 'full12') for c in langs]
+    run_parallel(ck, worker, jobs)
+    ck.outside.append('quick: integers outside the two domains n < 10^6 and "sparse" (units group free, one digit in each of '
+                      'the thousands/millions/billions groups); thorough: integers >= 10^12')
     ck.outside.append('sentence contexts other than: optional ordinary word before, optional space/comma/semicolon + '
                       'ordinary word or a full stop after')
     ck.assumptions.append('the spelling of n is the one produced by the reference spellers in /verif/oracle/langs.py '
